@@ -1,8 +1,8 @@
 package main
 
 import (
-	"math"
 	"fmt"
+	"math"
 	"sort"
 	"strings"
 
@@ -149,10 +149,10 @@ func fmtArgs(r *rng.R) []cty.Value {
 	return args
 }
 
-var regexes = []string{"a", "[a-z]+", "(\\w+) (\\w+)", "(?P<first>\\w)(?P<rest>\\w*)", "^$", "x*", "(a)|(b)", "\\d+", "[", "(?P<n>\\d)(?P<n>\\d)", ".", "日本", "(a)(?P<n>b)"}
-var timestamps = []string{"2006-01-02T15:04:05-03:30", "2020-06-30T23:59:59-00:45", "1999-12-31T00:00:00+05:45", "2006-01-02T15:04:05-09:30", "2006-01-02T15:04:05+12:45", "2006-01-02T15:04:05Z", "2020-02-29T23:59:59+09:00", "1999-12-31T00:00:00-08:00", "2006-01-02T15:04:05.999Z", "2006-01-02", "2006-01-02T15:04:05", "2006-13-02T15:04:05Z", "0001-01-01T00:00:00Z", "9999-12-31T23:59:59Z", "2006-01-02t15:04:05z", "2021-02-30T00:00:00Z", "2006-01-02T24:00:00Z"}
+var regexes = []string{"(?P<user>[a-z]*)@", "(?P<a>x*)(?P<b>y*)z?", "(?P<e>)a", "(?P<opt>b)?a(?P<tail>c*)", "a", "[a-z]+", "(\\w+) (\\w+)", "(?P<first>\\w)(?P<rest>\\w*)", "^$", "x*", "(a)|(b)", "\\d+", "[", "(?P<n>\\d)(?P<n>\\d)", ".", "日本", "(a)(?P<n>b)"}
+var timestamps = []string{"2006-01-02T15:04:05-03:30", "2020-06-30T23:59:59-00:45", "1999-12-31T00:00:00+05:45", "2006-01-02T15:04:05-09:30", "2006-01-02T15:04:05+12:45", "2006-01-02T15:04:05Z", "2020-02-29T23:59:59+09:00", "1999-12-31T00:00:00-08:00", "2006-01-02T15:04:05.999Z", "2020-01-01T00:00:00.5Z", "2020-01-01T23:59:59.75+01:00", "2019-12-31T23:59:59.123456Z", "2020-01-01T00:00:00.000000001Z", "2020-01-01T00:00:00.12345678Z", "2006-01-02", "2006-01-02T15:04:05", "2006-13-02T15:04:05Z", "0001-01-01T00:00:00Z", "9999-12-31T23:59:59Z", "2006-01-02t15:04:05z", "2021-02-30T00:00:00Z", "2006-01-02T24:00:00Z"}
 var dateFormats = []string{"YYYY-MM-DD", "DD MMM YYYY hh:mm ZZZ", "EEEE, DD-MMM-YY hh:mm:ss ZZZ", "EEE, DD MMM YYYY hh:mm:ss ZZZ", "YYYY-MM-DD'T'hh:mm:ssZ", "h:mm aa", "HH AA", "M/D/YY", "MMMM EEE", "'quoted''s' YYYY", "'unterminated", "X", "YYYYY", "ZZZZ ZZZZZ", "s ss", "hhh"}
-var durations = []string{"1h", "-30m", "10s", "1h30m15s", "0s", "24h", "1.5h", "100ms", "x", "1d", "", "2562047h47m16.854775807s", "-1ns"}
+var durations = []string{"500ms", "250ms", "-500ms", "999999999ns", "1ns", "750ms", "-1h0m0.5s", "1h", "-30m", "10s", "1h30m15s", "0s", "24h", "1.5h", "100ms", "x", "1d", "", "2562047h47m16.854775807s", "-1ns"}
 var jsonDocs = []string{"\n{\"a\": [1, 2]}", "\r\n\t [true]", "\n\n\"s\"", "\t12", `{"a":1,"b":[true,null,"x"]}`, `[1,2,3]`, `"str"`, `12.5`, `null`, `{}`, `[]`, `{"a":{"b":{"c":[]}}}`, `[1,"a"]`, `{"a":1,"a":2}`, `{"a":1,"a":"x"}`, `{`, ``, `1e400`, `[1,2] x`, `{"é":"é"}`, `18446744073709551616`, `true`, `[[],[1]]`, ` [1] `}
 var csvDocs = []string{"a,b\n1,2\n3,4\n", "a\n", "", "a,b\n1\n", "a,a\n1,2\n", "\"q,uoted\",b\n\"x\"\"y\",2\n", "a,b\r\n1,2\r\n", "a,b\n1,2,3\n", "é,日本\n1,2", "a,b\n\n1,2\n", "a;b\n1;2\n", "a,b\n\"1,2\n"}
 
@@ -472,8 +472,19 @@ func init() {
 		}
 		return []cty.Value{cty.StringVal(s), cty.NumberIntVal(b)}
 	})
-	regStd("Regex", stdlib.RegexFunc, func(r *rng.R) []cty.Value { return []cty.Value{cty.StringVal(regexes[r.Intn(len(regexes))]), str(r)} })
-	regStd("RegexAll", stdlib.RegexAllFunc, func(r *rng.R) []cty.Value { return []cty.Value{cty.StringVal(regexes[r.Intn(len(regexes))]), str(r)} })
+	// subjects on which groups match the empty string, do not take part, or match several times
+	reSubj := func(r *rng.R) cty.Value {
+		if r.Bool() {
+			return cty.StringVal([]string{"a", "@example.com", "ab", "", "xy", "z", "ac", "bacc a", "a a a", "user@host @x"}[r.Intn(10)])
+		}
+		return str(r)
+	}
+	regStd("Regex", stdlib.RegexFunc, func(r *rng.R) []cty.Value {
+		return []cty.Value{cty.StringVal(regexes[r.Intn(len(regexes))]), reSubj(r)}
+	})
+	regStd("RegexAll", stdlib.RegexAllFunc, func(r *rng.R) []cty.Value {
+		return []cty.Value{cty.StringVal(regexes[r.Intn(len(regexes))]), reSubj(r)}
+	})
 	regStd("Concat", stdlib.ConcatFunc, func(r *rng.R) []cty.Value {
 		vs := make([]cty.Value, r.Intn(4))
 		e := primT(r)
